@@ -232,7 +232,7 @@ func runC05Case(c *Ctx, idx int) *CaseResult {
 		depth = 6
 	}
 	st := GenState(c.Rng(idx, 1))
-	g := &Gen{R: r, Pool: catalog, Calls: true, Strs: true, Times: true}
+	g := &Gen{R: r, Pool: catalog, Calls: true, Strs: true, Times: true, ShortCircuit: CopyState(st)}
 	var e *Expr
 	for tries := 0; tries < 40; tries++ {
 		ty := []Ty{TInt, TInt, TUint, TFloat, TFloat, TStr, TBool, TBool, TBool, TTime}[r.Intn(10)]
